@@ -273,7 +273,7 @@ def one(ctx, c, setname, a, transports, do_transports, rng):
                     _sys.modules["sgio" if tname == "sgio" else "iscsi"].handler = filler
                     ctx.count("replies_announcing_more_than_fits")
                 FIRST[0] += 1
-                if FIRST[0] % 4 == 1:
+                if FIRST[0] % 3 == 1:  # (3: odd period, so that both transports get their turn)
                     # the first reply is not GOOD (BUSY, TASK SET FULL, a UNIT ATTENTION): whatever the library does about it, every
                     # hand-off of the command carries buffers that match its CDB
                     import sys as _sys2
@@ -283,7 +283,7 @@ def one(ctx, c, setname, a, transports, do_transports, rng):
                     modx = _sys2.modules["sgio" if tname == "sgio" else "iscsi"]
                     inner = modx.handler
                     pending = [[(0x08, None)], [(0x28, None)], [(2, _SN.build(0x70, 0, 6, 0x29, 0, 18))], [(2, _SN.build(0x70, 0, 5, 0x24, 0, 18))],
-                               [(0x08, None), (0x08, None)]][(FIRST[0] // 4) % 5]
+                               [(0x08, None), (0x08, None)]][(FIRST[0] // 3) % 5]
                     pending = list(pending)
 
                     def flaky(ev, inner=inner, pending=pending):
